@@ -62,6 +62,11 @@ def use_params(P):
         pass
 
 
+def _documented():
+    from _gettsim.config import TYPES_INPUT_VARIABLES
+    return TYPES_INPUT_VARIABLES
+
+
 def scalar(name, sym, single_person=True):
     """constraints on one input value"""
     t = sym.t
@@ -87,7 +92,10 @@ def scalar(name, sym, single_person=True):
         return [t >= 0, t <= 10]
     if name.startswith("m_") or name.startswith("y_"):
         return [t >= 0, t <= 720]
-    return [t >= 0]
+    if name in _documented():
+        return [t >= 0]          # documented money / quantity inputs
+    # a *computed* column: no sign is assumed (sign facts are proved, see C16)
+    return []
 
 
 def inputs(syms, single_person=True):
